@@ -9,6 +9,7 @@ import (
 	"encoding/hex"
 	"fmt"
 	"math/rand/v2"
+	"os"
 	"runtime"
 	"runtime/debug"
 	"sort"
@@ -796,7 +797,7 @@ func firstRepoFrames(stack string) string {
 	lines := strings.Split(stack, "\n")
 	var out []string
 	for i := 0; i+1 < len(lines); i++ {
-		if strings.Contains(lines[i+1], "/repo/") && !strings.HasPrefix(lines[i], "\t") {
+		if strings.Contains(lines[i+1], RepoRoot()+"/") && !strings.HasPrefix(lines[i], "\t") {
 			// function name and file:line only: argument values and pc offsets are addresses that differ
 			// from process to process and must not reach the event log
 			fn := strings.TrimSpace(lines[i])
@@ -813,13 +814,22 @@ func firstRepoFrames(stack string) string {
 	return strings.Join(out, "\n")
 }
 
+// RepoRoot is where the tree under test lives (/repo; a background sweep may point VERIF_REPO at a
+// snapshot of it, which the supervisor then also builds against).
+func RepoRoot() string {
+	if r := os.Getenv("VERIF_REPO"); r != "" {
+		return r
+	}
+	return "/repo"
+}
+
 // PanicSite extracts "file.go:line" of the first frame inside /repo from a stack.
 func PanicSite(stack string) string {
 	for _, l := range strings.Split(stack, "\n") {
 		l = strings.TrimSpace(l)
-		if strings.HasPrefix(l, "/repo/") {
+		if strings.HasPrefix(l, RepoRoot()+"/") {
 			f := strings.Fields(l)[0]
-			return strings.TrimPrefix(f, "/repo/")
+			return strings.TrimPrefix(f, RepoRoot()+"/")
 		}
 	}
 	return "?"
